@@ -69,7 +69,7 @@ def pair_body(case, rec):
     st_, sx = intervals(trial)
     sc, tc, near, info = pairs.classify(g, tt, tx, st_, sx)
     if pairs.close_disjoint_excluded(info, sc):
-        rec.exclude('close_disjoint_ratio_above_8')
+        rec.exclude('short_panel_close_to_much_longer_one')
         return
     cj = dict(case)
     cj['_pair'] = {'test': [tt, tx], 'trial': [st_, sx], 'class': sc + '|' + tc}
@@ -126,7 +126,7 @@ def matrix_body(case, rec):
     from vlib.meshdrive import exc_site
     import src.single_layer as slm
     try:
-        live = Live(case['spec'])
+        live = Live(case['spec'], min_hx=1e-4)
         for op in case['ops']:
             apply_op(live, op, cap=64)
     except Exception as ex:
